@@ -1,0 +1,108 @@
+//go:build verif
+
+// Machine-checked contracts for package transform (comment-only file; see /verif/DESIGN.md).
+package transform
+
+//@ -- C12: altitudes are scaled by 2^35 so that every cell boundary is an integer.
+//@ define srcA(f, zin) = f * pow2(60 - zin)
+//@ define srcB(f, zin) = (f + 1) * pow2(60 - zin)
+//@ define keyW(zout, e) = pow2(35 + e - zout)
+//@ define kmin(f, zin, zout, e, off) = fdiv(srcA(f, zin) + off * pow2(35), keyW(zout, e))
+//@ define kmax(f, zin, zout, e, off) = fdiv(srcB(f, zin) - 1 + off * pow2(35), keyW(zout, e))
+//@ define wA(f, zin) = fdiv(srcA(f, zin), pow2(35)) * pow2(35)
+//@ define wB(f, zin) = (0 - fdiv(0 - srcB(f, zin), pow2(35))) * pow2(35)
+//@ define wmin(f, zin, zout, e, off) = fdiv(wA(f, zin) + off * pow2(35), keyW(zout, e))
+//@ define wmax(f, zin, zout, e, off) = fdiv(wB(f, zin) - 1 + off * pow2(35), keyW(zout, e))
+//@ define fexists(f, z) = 0 - pow2(z) <= f && f < pow2(z)
+//@ define kexists(k, z) = 0 <= k && k < pow2(z)
+//@ define offok(off) = 0 - pow2(27) <= off && off <= pow2(27)
+
+//@ func validateIndexExists
+//@   props C12 C13 C05
+//@   split inputZoom 0..35
+//@   ensures r1 <==> (inputIndex <= pow2(inputZoom) - 1 && inputIndex >= ite(minValueIsNegative, 0 - pow2(inputZoom), 0))
+//@   ensures r1 <==> r0 == nil
+//@ end
+
+//@ func convertZToMinAltitudekey
+//@   props C12 C05
+//@   split inputZoom 0..35
+//@   split outputZoom 0..35
+//@   split zBaseExponent 0..35
+//@   requires offok(zBaseOffset)
+//@   ensures r1 == nil <==> (fexists(inputIndex, inputZoom) && kexists(wmin(inputIndex, inputZoom, outputZoom, zBaseExponent, zBaseOffset), outputZoom))
+//@   ensures r1 == nil ==> r0 == wmin(inputIndex, inputZoom, outputZoom, zBaseExponent, zBaseOffset)
+//@   ensures r1 != nil ==> r0 == 0
+//@ end
+
+//@ func convertZToMaxAltitudekey
+//@   props C12 C05
+//@   split inputZoom 0..35
+//@   split outputZoom 0..35
+//@   split zBaseExponent 0..35
+//@   requires offok(zBaseOffset)
+//@   requires fexists(inputIndex, inputZoom)
+//@   ensures r1 == nil <==> kexists(kmax(inputIndex, inputZoom, outputZoom, zBaseExponent, zBaseOffset), outputZoom)
+//@   ensures r1 == nil ==> r0 == kmax(inputIndex, inputZoom, outputZoom, zBaseExponent, zBaseOffset)
+//@   ensures r1 != nil ==> r0 == 0
+//@ end
+
+//@ func ConvertZToMinMaxAltitudekey
+//@   props C12 C05
+//@   split inputZoom 0..35
+//@   split outputZoom 0..35
+//@   split zBaseExponent 0..35
+//@   requires offok(zBaseOffset)
+//@   ensures [order] err == nil ==> minAltitudeKey <= maxAltitudeKey
+//@   ensures [cover-min] err == nil ==> minAltitudeKey <= kmin(inputIndex, inputZoom, outputZoom, zBaseExponent, zBaseOffset)
+//@   ensures [cover-max] err == nil ==> kmax(inputIndex, inputZoom, outputZoom, zBaseExponent, zBaseOffset) <= maxAltitudeKey
+//@   ensures [within-widened] err == nil ==> wmin(inputIndex, inputZoom, outputZoom, zBaseExponent, zBaseOffset) <= minAltitudeKey && maxAltitudeKey <= wmax(inputIndex, inputZoom, outputZoom, zBaseExponent, zBaseOffset)
+//@   ensures [exact] err == nil && inputZoom <= 25 ==> minAltitudeKey == kmin(inputIndex, inputZoom, outputZoom, zBaseExponent, zBaseOffset) && maxAltitudeKey == kmax(inputIndex, inputZoom, outputZoom, zBaseExponent, zBaseOffset)
+//@   ensures [err-when-out] (!fexists(inputIndex, inputZoom) || kmin(inputIndex, inputZoom, outputZoom, zBaseExponent, zBaseOffset) < 0 || kmax(inputIndex, inputZoom, outputZoom, zBaseExponent, zBaseOffset) >= pow2(outputZoom)) ==> err != nil
+//@   ensures [no-err-when-fits] (fexists(inputIndex, inputZoom) && 0 <= wmin(inputIndex, inputZoom, outputZoom, zBaseExponent, zBaseOffset) && wmax(inputIndex, inputZoom, outputZoom, zBaseExponent, zBaseOffset) < pow2(outputZoom)) ==> err == nil
+//@   ensures [err-zero] err != nil ==> minAltitudeKey == 0 && maxAltitudeKey == 0
+//@   ensures [value] err == nil ==> minAltitudeKey == wmin(inputIndex, inputZoom, outputZoom, zBaseExponent, zBaseOffset) && maxAltitudeKey == kmax(inputIndex, inputZoom, outputZoom, zBaseExponent, zBaseOffset)
+//@ end
+
+//@ -- the reverse direction: key (k, zk, e, off) -> vertical indices at zoom zout
+//@ define keyA(k, zk, e, off) = k * pow2(35 + e - zk) - off * pow2(35)
+//@ define keyB(k, zk, e, off) = (k + 1) * pow2(35 + e - zk) - off * pow2(35)
+//@ define zmin(k, zk, zout, e, off) = fdiv(keyA(k, zk, e, off), pow2(60 - zout))
+//@ define zmax(k, zk, zout, e, off) = fdiv(keyB(k, zk, e, off) - 1, pow2(60 - zout))
+//@ define wzmin(k, zk, zout, e, off) = fdiv(fdiv(keyA(k, zk, e, off), pow2(35)) * pow2(35), pow2(60 - zout))
+//@ define wzmax(k, zk, zout, e, off) = fdiv((0 - fdiv(0 - keyB(k, zk, e, off), pow2(35))) * pow2(35) - 1, pow2(60 - zout))
+
+//@ func ConvertAltitudekeyToMinMaxZ
+//@   props C12 C13
+//@   split altitudekeyZoomLevel 0..35
+//@   split outputZoom 0..35
+//@   split zBaseExponent 0..35
+//@   requires offok(zBaseOffset)
+//@   ensures [order] r2 == nil ==> r0 <= r1
+//@   ensures [cover] r2 == nil ==> r0 <= zmin(altitudekey, altitudekeyZoomLevel, outputZoom, zBaseExponent, zBaseOffset) && zmax(altitudekey, altitudekeyZoomLevel, outputZoom, zBaseExponent, zBaseOffset) <= r1
+//@   ensures [within-widened] r2 == nil ==> wzmin(altitudekey, altitudekeyZoomLevel, outputZoom, zBaseExponent, zBaseOffset) <= r0 && r1 <= wzmax(altitudekey, altitudekeyZoomLevel, outputZoom, zBaseExponent, zBaseOffset)
+//@   ensures [exact] r2 == nil && zBaseExponent >= altitudekeyZoomLevel ==> r0 == zmin(altitudekey, altitudekeyZoomLevel, outputZoom, zBaseExponent, zBaseOffset) && r1 == zmax(altitudekey, altitudekeyZoomLevel, outputZoom, zBaseExponent, zBaseOffset)
+//@   ensures [err-when-out] (!kexists(altitudekey, altitudekeyZoomLevel) || zmin(altitudekey, altitudekeyZoomLevel, outputZoom, zBaseExponent, zBaseOffset) < 0 - pow2(outputZoom) || zmax(altitudekey, altitudekeyZoomLevel, outputZoom, zBaseExponent, zBaseOffset) >= pow2(outputZoom)) ==> r2 != nil
+//@   ensures [no-err-when-fits] (kexists(altitudekey, altitudekeyZoomLevel) && 0 - pow2(outputZoom) <= wzmin(altitudekey, altitudekeyZoomLevel, outputZoom, zBaseExponent, zBaseOffset) && wzmax(altitudekey, altitudekeyZoomLevel, outputZoom, zBaseExponent, zBaseOffset) < pow2(outputZoom)) ==> r2 == nil
+//@   ensures [err-zero] r2 != nil ==> r0 == 0 && r1 == 0
+//@   ensures [value] r2 == nil ==> r0 == wzmin(altitudekey, altitudekeyZoomLevel, outputZoom, zBaseExponent, zBaseOffset) && r1 == wzmax(altitudekey, altitudekeyZoomLevel, outputZoom, zBaseExponent, zBaseOffset)
+//@ end
+
+//@ -- C12, last clause: in the exact regime the two directions are mutually consistent.
+//@ lemma C12_directions_consistent
+//@   props C12
+//@   var f int
+//@   var zf int
+//@   var k int
+//@   var zk int
+//@   var e int
+//@   var off int
+//@   split zf 0..25
+//@   split zk 0..35
+//@   split e 0..35
+//@   assume offok(off) && e >= zk
+//@   call mn, mx, e1 := ConvertZToMinMaxAltitudekey(f, zf, zk, e, off)
+//@   call zmn, zmx, e2 := ConvertAltitudekeyToMinMaxZ(k, zk, zf, e, off)
+//@   assume e1 == nil && e2 == nil
+//@   assert (mn <= k && k <= mx) <==> (zmn <= f && f <= zmx)
+//@ end
